@@ -364,13 +364,16 @@ theorem handleAllocationDone_no_panic (m : M) (ex mi : Bool) (hcc : m.1.complete
   generalize hadForget (hadInstall m) mi = X at *
   have fresh : (hadFresh X).1.panicked = m.1.panicked := by
     unfold hadFresh
-    rw [hadCheck_no_panic]
-    · simpa using hp0
-    · simp [St.markPaddingPieces]
-    · simp only [onSt_fst, markPaddingPieces_completeCClosed, markPaddingPieces_completed]
-      unfold St.resetCompletion
-      split <;> simp_all
-    · exact hq0.of_peers (by simp)
+    dsimp only
+    split
+    · simp only [onSt_fst]; rw [stop_panicked]; simpa using hp0
+    · rw [hadCheck_no_panic]
+      · simpa using hp0
+      · simp [hadFreshInstall, St.markPaddingPieces]
+      · simp only [hadFreshInstall, onSt_fst, markPaddingPieces_completeCClosed, markPaddingPieces_completed]
+        unfold St.resetCompletion
+        split <;> simp_all
+      · exact hq0.of_peers (by simp)
   dsimp only
   split
   · next b hb =>
